@@ -28,7 +28,7 @@ def run_pipeline(binary, name, cases, engine="pipeline", timeout=3000, env=None)
     rc, out, err = vf.run_harness(binary, [engine, path], timeout=timeout, env=env)
     if rc != 0:
         raise vf.ToolError("harness %s failed rc=%d: %s" % (engine, rc, err[-2000:]))
-    res = [json.loads(l) for l in out.splitlines() if l.strip()]
+    res = [json.loads(l) for l in out.splitlines() if l.startswith("{")]   # examples print progress lines
     if len(res) != len(cases):
         raise vf.ToolError("harness returned %d results for %d cases" % (len(res), len(cases)))
     return res
